@@ -197,8 +197,8 @@ def run_check(prop, tier, batch_seed=None, workers=None, runs=None, budget=None,
             if ctx is not None:
                 farm.set_context(ctx)
 
-        # phase 1: seeded runs
-        deadline = t0 + cfg["budget_s"]
+        # phase 1: seeded runs (the budget is the budget of this phase: a long preparation must not eat the runs)
+        deadline = max(t0 + cfg["budget_s"], time.monotonic() + 0.5 * cfg["budget_s"])
         state = {"stop_after": None}
 
         def jobs():
@@ -230,6 +230,8 @@ def run_check(prop, tier, batch_seed=None, workers=None, runs=None, budget=None,
             n_done += 1
             _absorb(res, stats, sets, sigs, nontrivial_sigs, samples, viols)
         t_runs = time.monotonic() - t_runs0
+        if n_done == 0:
+            harness_errors.append({"error": "no run was executed (budget %ss used up before the run phase, or every run failed)" % cfg["budget_s"]})
 
         # phase 2: property-specific extra jobs (uniformity, pool fidelity, determinism self-test)
         if hasattr(mod, "extras"):
